@@ -12,6 +12,9 @@ pub struct C02;
 #[derive(Clone, Serialize, Deserialize)]
 pub struct Case {
     pub program: Program,
+    /// the device serves reads and writes in these (cyclic) maximum sizes; empty = full transfers
+    #[serde(default)]
+    pub chunks: Vec<u16>,
 }
 
 impl Check for C02 {
@@ -21,7 +24,7 @@ impl Check for C02 {
         "Same program space as C01 (plus images and blobs in every order, leading padding blob sweeping positions mod 1020). Each finalized file is \
          decoded and validated by e57ref, an independent decoder (bit-serial CRC-32C, own strict XML+namespace parser, naive bit codec): size, page \
          checksums, header fields, XML well-formedness and namespaces, every published offset, section ids, section/packet length consistency, \
-         alignment; the decoded scene must equal what was handed to the writer, and must equal what the crate's own reader reports. \
+         alignment, prototype values within their own limits; 1 in 6 programs writes to a device that serves short reads and writes; the decoded scene must equal what was handed to the writer, and must equal what the crate's own reader reports. \
          Non-trivial: file with >= 2 section kinds and a header straddling a page boundary, or an image with a projection, or a cloud with >= 3 data packets."
             .into()
     }
@@ -35,7 +38,7 @@ impl Check for C02 {
         crate::preflight::decoder_preflight()
     }
     fn fixed(t: Tier) -> Vec<Case> {
-        prog::sweep_programs(t == Tier::Thorough).into_iter().map(|program| Case { program }).collect()
+        prog::sweep_programs(t == Tier::Thorough).into_iter().map(|program| Case { program, chunks: vec![] }).collect()
     }
     fn describe_fixed(t: Tier) -> Option<String> {
         Some(format!(
@@ -44,14 +47,20 @@ impl Check for C02 {
         ))
     }
     fn gen(s: &mut Src, _t: Tier) -> Case {
-        let o = GenOpts { density: 3, max_ops: 5, ..GenOpts::default() };
-        Case { program: prog::valid_program(s, &o) }
+        let o = GenOpts { density: 3, max_ops: 5, compact_chance: (1, 60), ..GenOpts::default() };
+        let program = prog::valid_program(s, &o);
+        let chunks = if s.chance(1, 6) { (0..1 + s.below(4)).map(|_| *s.pick(&[1u16, 7, 200, 512, 1000, 1023, 1024, 3000])).collect() } else { vec![] };
+        Case { program, chunks }
     }
     fn run(case: &Case) -> Verdict {
         let mut v = Verdict::new();
         let p = &case.program;
         proto_labels(p, &mut v);
         let dev = MemDev::new();
+        if !case.chunks.is_empty() {
+            dev.st.borrow_mut().chunks = case.chunks.iter().map(|c| *c as usize).collect();
+            v.label("device_with_short_transfers");
+        }
         let mut tr = Trace::default();
         let h = dev.handle();
         if guard(|| prog::exec(p, dev, &mut tr)).is_err() || tr.error.is_some() || !tr.finalized {
